@@ -170,7 +170,15 @@ func (i *Interpreter) getOriginHostHeader(backend *value.Backend, defaultHost st
 }
 
 func (i *Interpreter) sendBackendRequest(backend *value.Backend) (*http.Response, error) {
-	fbt, err := i.getBackendProperty(backend.Value.Properties, "first_byte_timeout")
+	// A director-backed value has no declaration of its own (Value is nil): the request has been
+	// built for the backend the director selected, only the name and the default timeouts apply.
+	var properties []*ast.BackendProperty
+	if backend.Value != nil {
+		properties = backend.Value.Properties
+	}
+	backendName := backend.String()
+
+	fbt, err := i.getBackendProperty(properties, "first_byte_timeout")
 	if err != nil {
 		return nil, errors.WithStack(err)
 	}
@@ -178,20 +186,20 @@ func (i *Interpreter) sendBackendRequest(backend *value.Backend) (*http.Response
 	timeout := 15 * time.Second // 15 seconds as default
 	if fbt != nil {
 		if fbt.Type() != value.RTimeType {
-			return nil, exception.Runtime(nil, "backend %s property 'first_byte_timeout' must be RTIME, got %s", backend.Value.Name.Value, fbt.Type())
+			return nil, exception.Runtime(nil, "backend %s property 'first_byte_timeout' must be RTIME, got %s", backendName, fbt.Type())
 		}
 		timeout = value.Unwrap[*value.RTime](fbt).Value
 	}
 
 	// The backend "fetch_timeout" property bounds the entire response fetch,
 	// so prefer it over the first_byte_timeout-derived default when present.
-	ft, err := i.getBackendProperty(backend.Value.Properties, "fetch_timeout")
+	ft, err := i.getBackendProperty(properties, "fetch_timeout")
 	if err != nil {
 		return nil, errors.WithStack(err)
 	}
 	if ft != nil {
 		if ft.Type() != value.RTimeType {
-			return nil, exception.Runtime(nil, "backend %s property 'fetch_timeout' must be RTIME, got %s", backend.Value.Name.Value, ft.Type())
+			return nil, exception.Runtime(nil, "backend %s property 'fetch_timeout' must be RTIME, got %s", backendName, ft.Type())
 		}
 		timeout = value.Unwrap[*value.RTime](ft).Value
 	}
@@ -214,11 +222,11 @@ func (i *Interpreter) sendBackendRequest(backend *value.Backend) (*http.Response
 	// Debug message
 	var suffix string
 	// nolint:errcheck
-	if overrideBackend, _ := getOverrideBackend(i.ctx, backend.Value.Name.Value); overrideBackend != nil {
+	if overrideBackend, _ := getOverrideBackend(i.ctx, backendName); overrideBackend != nil {
 		suffix = " (overridden by config)"
 	}
 	i.Debugger.Message(
-		fmt.Sprintf("Fetching backend (%s) %s%s", backend.Value.Name.Value, req.URL.String(), suffix),
+		fmt.Sprintf("Fetching backend (%s) %s%s", backendName, req.URL.String(), suffix),
 	)
 
 	resp, err := http.SendRequest(req)
@@ -228,7 +236,7 @@ func (i *Interpreter) sendBackendRequest(backend *value.Backend) (*http.Response
 
 	// Debug message
 	i.Debugger.Message(
-		fmt.Sprintf("Backend (%s) responds status code %d", backend.Value.Name.Value, resp.StatusCode),
+		fmt.Sprintf("Backend (%s) responds status code %d", backendName, resp.StatusCode),
 	)
 
 	// read all response body to suppress memory leak
